@@ -477,6 +477,70 @@ PROPS["C20"] = dict(
     level_note="the HTTP mux is a process global that panics on re-registration: handlers are registered once per worker process and forward to the current run",
 )
 
+def _add(prop, rule="", probes=(), assume=(), drop_assume=(), level=""):
+    """Later extensions of a scenario (waves 4-6 of seeded changes), kept apart from the first description."""
+    d = PROPS[prop]
+    if rule:
+        d["rule"] = d["rule"] + " Extensions: " + rule
+    d["expected_probes"] = list(d["expected_probes"]) + [x for x in probes if x not in d["expected_probes"]]
+    d["assumptions"] = [a for a in d["assumptions"] if not any(k in a for k in drop_assume)] + list(assume)
+    if level:
+        d["level_text"] = d["level_text"].replace("; evidence, not proof", "; " + level + "; evidence, not proof")
+
+
+_add("C18", rule="at every step of a run (whenever the whole bubble is parked) no task may be asleep inside TryLock or Unlock, whether or not it is woken later",
+     level="TryLock/Unlock never sleep, judged per step")
+_add("C19", rule="at every step only the fetcher inside a blocking Fetch may be asleep: a task asleep inside Assert, Clear or Fetch(false) is a violation at that step",
+     level="Assert/Clear/Fetch(false) never sleep, judged per step")
+_add("C17", rule="masks come from a six-bit universe; entries backed by an unbuffered channel with a parked waiter (the notification must reach it); "
+     "entries that keep the library's own channel callback", probes=["waiter_parked_on_unbuffered_channel"])
+_add("C10", rule="(netsim:demux) dual-stack IPv6 wildcard sockets (reserve for both protocols), binds through an interface that does not exist (must leave "
+     "nothing behind), a port inside the ephemeral range held while unbound sockets connect from a simulator-chosen search offset, active TCP opens from "
+     "unbound, bound and dual-stack sockets that the peer refuses or accepts (Connect releases the reservation; a Connect refused because its 4-tuple is "
+     "taken must leave the socket's reservation to be released by Close - finding F20), back-to-back duplicate SYNs",
+     probes=["tcp_active_opens", "tcp_connections_opened_actively", "ephemeral_port_checked", "dual_stack_sockets", "bind_to_unknown_interface_refused",
+             "tcp_active_open_refused_locally"],
+     drop_assume=["TCP active-open (Connect) reservations are not covered"],
+     assume=["socket-level clause (variant netsim:demux, a quarter of the workers): the C09 world driven mostly with open/close/reopen of UDP sockets "
+             "(wildcard/specific, connected, interface-bound, dual-stack), TCP listeners and active TCP opens; a Bind(+Listen) must fail iff an open socket holds a "
+             "conflicting reservation, immediately after the Close of the previous holder returns; an ephemeral port given to a connecting socket must not be "
+             "reserved by an open socket"])
+_add("C09", rule="dual-stack IPv6 wildcard UDP sockets, binds through an unknown interface, a bound port inside the ephemeral range, TCP connections opened "
+     "actively by the stack (unbound, bound to a specific or the wildcard address) and kept as sockets of the scenario, back-to-back duplicate SYNs, clock "
+     "advances of 70 s (past TIME-WAIT and the neighbour lifetime), packets for a removed address that a connected user still references",
+     probes=["tcp_connections_opened_actively", "tcp_active_opens", "bind_to_removed_address", "known_finding_F19", "duplicate_syn_back_to_back",
+             "packet_for_removed_but_referenced_address"])
+_add("C03", rule="resets aimed at the listener, back-to-back duplicate SYNs (one half-open slot), wrong final ACKs on connections without timestamps, "
+     "data-bearing final ACKs, strays carrying options; after every episode the listener's half-open slots must be back to their count "
+     "(half-open-slots-leaked)",
+     probes=["duplicate_syn_back_to_back", "wrong_ack_without_timestamp", "reset_at_listener", "stray_with_options", "listener_noise"])
+_add("C04", rule="SYN-cookie listeners, receive buffer resized mid-run (SetSockOpt), peer data sent out of order, segments straddling the right edge (possibly "
+     "beginning before rcvNxt: the in-window part must be accepted, the rest never returned), MSS 1000/1400",
+     probes=["receive_buffer_resized", "segments_straddling_the_right_edge", "peer_data_out_of_order", "known_finding_F17", "known_finding_F18"])
+_add("C05", rule="ACKs that land inside a segment; fast-retransmit eligibility re-established after a timeout episode has been fully acknowledged; the doubling "
+     "clause follows timer restarts (lastAdvance)", probes=["acks_inside_a_segment", "backoff_depth_ge_6", "retransmissions"])
+_add("C07", rule="valid fragmented transport packets that must still be served (fragvalid), runt Ethernet frames at the real fd-based endpoint (one run in six), "
+     "FIN with data ahead of a hole, ICMPv6 errors quoting fragments; a link whose dispatch loop died is a violation (link-dead)",
+     probes=["valid_frames", "transport_packets_in_fragments", "fin_with_data_ahead_of_a_hole", "runt_ethernet_frames", "fd_based_links"],
+     drop_assume=["the real fd-based link endpoint"],
+     assume=["in one run in six the victim's NIC is the repository's fd-based endpoint over a simulated descriptor (Ethernet framing, runt frames; finding F4)"])
+_add("C11", rule="a second reader goroutine on the same socket (reads may overlap), sendto on a connected socket, re-connecting a connected socket to another peer "
+     "(finding F14), link write errors on sends (the Write must report the failure and emit nothing)",
+     probes=["reads_overlapping_another_reader", "reconnects", "sendto_on_connected_socket", "link_write_faults_armed"])
+_add("C12", rule="gratuitous and overheard replies, replies of every kind at the ring-size boundary, solicitations to the solicited-node multicast group, IPv6 "
+     "sends that wait for neighbour discovery (advertisements with another option first, or from another address of the neighbour), link write errors on requests "
+     "and replies (a refused request counts as an attempt), failures older than the entry lifetime",
+     probes=["gratuitous_replies", "overheard_replies", "solicitations_to_multicast_group", "ipv6_data_frames_after_resolution", "link_write_faults_armed",
+             "requests_refused_by_the_device", "advertisement_with_another_option_first", "advertisement_from_another_address"])
+_add("C13", rule="removal and re-assignment of the primary address, link write errors while replies are pending (a refused reply is not owed again)",
+     probes=["primary_address_added_again", "requests"])
+_add("C20", rule="header values containing ': ', bodies that start with line breaks", probes=["header_values_with_separator", "bodies_starting_with_line_breaks"])
+_add("C01", rule="link write errors as a wire fault (the device refuses a frame; the sender's retransmission machinery must recover); one of the applications may "
+     "speak first from the accepting side (ServerFirst)")
+_add("C02", rule="link write errors count as losses of the frame they refuse")
+_add("C14", rule="link write errors are part of the fault mix of the two-stack runs and of their twins")
+
+
 PENDING = "check not built yet (work in progress; will be claimed once its simulation exists)"
 NOT_APPLICABLE = {
     "C15": "pure functions of their input (header codecs, RFC 1071 checksum): no schedule, clock, fault, I/O or second party for a simulator to control; "
